@@ -19,6 +19,15 @@ Theorem C02_ape_locate_agrees : forall real f s, ape_wf f = true -> ape_parse f 
 Proof. exact locate_wf. Qed.
 Print Assumptions C02_ape_locate_agrees.
 
+(* a freshly appended tag is found exactly, whatever the body, as long as the body carries no marker
+   (clean_tail body; C02_ape_stray_preamble_refuted below shows what happens otherwise) *)
+Theorem C02_ape_locate_appended : forall real body items,
+  clean_tail body = true -> forallb item_valid items = true -> tag_fits items = true ->
+  exists l, ape_locate real (body ++ ape_render_tag items) = Ok (Some l) /\
+            l_start l = zlen body /\ l_end l = zlen body + zlen (ape_render_tag items) /\ l_at_start l = false.
+Proof. exact locate_appended. Qed.
+Print Assumptions C02_ape_locate_appended.
+
 Theorem C02_ape_segments : forall f s, ape_wf f = true -> ape_parse f = Ok s ->
   exists tagbytes, f = pbody s ++ tagbytes ++ ptrailer s /\ (ptag s = None -> tagbytes = []).
 Proof. exact parse_segments. Qed.
@@ -59,6 +68,8 @@ Theorem C02_ape_stray_preamble_refuted : exists f s f',
 Proof. exact stray_preamble_refuted. Qed.
 Print Assumptions C02_ape_stray_preamble_refuted.
 
+Example C02_ape_clean_tail_examples : clean_tail audio = true /\ clean_tail (audio ++ id3v1) = true /\ clean_tail pymusepack = false.
+Proof. repeat split; vm_compute; reflexivity. Qed.
 Example C02_ape_documented_exception :
   ape_wf (tagged ++ id3v1) = true /\
   ape_save false (tagged ++ id3v1) [it_url] = Ok (audio ++ ape_render_tag [it_url]) /\
